@@ -55,6 +55,8 @@ import (
 )
 
 const (
+	failID       = 0xE7
+	statusError  = 4 // c2.StatusError
 	gatedID      = 0xE6
 	echoID       = 0xE5
 	statusDone   = 3 // c2.StatusCompleted
@@ -597,6 +599,44 @@ func shape(h Hist, j *jobRec, chanKind string) string {
 	return s
 }
 
+// failTasker fails: at once (shape 0), after writing a string (1), after writing bytes that do not
+// start with a string header (2), after writing a number and a string (3).  The shape is the first
+// payload byte.  The error names the payload and the client that ran the task: that is "the
+// result that client produced for that job" (Job.Error), whatever was written before.
+func failTasker(x context.Context, r data.Reader, w data.Writer) error {
+	var (
+		n, _ = r.(*com.Packet)
+		o, _ = w.(*com.Packet)
+		c, _ = x.Value(ctxKey{}).(*cliRec)
+	)
+	if n == nil || o == nil || c == nil {
+		atomic.AddInt32(&strayExec, 1)
+		return nil
+	}
+	p := n.Payload()
+	t := payloadTok(p)
+	c.mu.Lock()
+	c.exec = append(c.exec, execRec{job: n.Job, ptok: t, dev: o.Device})
+	c.mu.Unlock()
+	shape := byte(0)
+	if len(p) > 0 {
+		shape = p[0] & 3
+	}
+	switch shape {
+	case 1:
+		w.WriteString(fmt.Sprintf("partial output of %d", t))
+	case 2:
+		w.Write([]byte{0xC8, 0xFF, 0xFE, 0x00, 0x10, 0x80, 0x7F, 0xC8, 0xC8, 0xC8, 0xC8, 0xC8, 0xC8, 0xC8, 0xC8, 0xC8})
+	case 3:
+		w.WriteUint32(0xDEADBEEF)
+		w.WriteString("and a string")
+	}
+	return fmt.Errorf("boom:%d:%d", t, c.idx)
+}
+
+// mvIDs: the tasks the default client mux answers itself without touching the host
+var mvIDs = []uint8{task.MvRefresh, task.MvPwd, task.MvCheckDebug, task.MvList, task.MvMounts, task.MvProcList, task.MvWhoami}
+
 // gatedTasker is the echo tasker that reports its start and finishes when released.
 func gatedTasker(x context.Context, r data.Reader, w data.Writer) error {
 	var (
@@ -943,9 +983,17 @@ func runHist(h Hist, idSeed uint64) (res HRes) {
 			}
 			res.Chan++
 			r.mu.Unlock()
-		case "task", "sleep", "jitter":
+		case "task", "sleep", "jitter", "fail", "mv":
 			j := &jobRec{c: op.C, kind: "echo", size: op.Size, nfrag: 1, lostCh: make(chan struct{})}
-			if op.Kind != "task" {
+			if op.Kind == "fail" {
+				serial++
+				if op.Size < 1 {
+					op.Size, j.size = 1, 1
+				}
+				j.kind, j.payload = "fail", genPayload(op.Size, op.Seed, serial)
+				j.payload[0] = byte(op.Val & 3)
+				j.ptok, j.nfrag = payloadTok(j.payload), nfrags(op.Size)
+			} else if op.Kind != "task" {
 				j.kind, j.val = op.Kind, int64(op.Val)
 			} else {
 				serial++
@@ -976,6 +1024,17 @@ func runHist(h Hist, idSeed uint64) (res HRes) {
 				n := &com.Packet{ID: echoID, Device: c.ss.ID}
 				n.Write(j.payload)
 				job, err = c.ss.Task(n)
+			case "fail":
+				n := &com.Packet{ID: failID, Device: c.ss.ID}
+				n.Write(j.payload)
+				job, err = c.ss.Task(n)
+			case "mv":
+				n := &com.Packet{ID: uint8(op.Val), Device: c.ss.ID}
+				if uint8(op.Val) == task.MvList {
+					n.WriteString(".")
+				}
+				job, err = c.ss.Task(n)
+				j.ptok = 1<<62 | 1<<60 | uint64(op.Val)
 			case "sleep":
 				job, err = c.ss.SetSleep(time.Duration(op.Val) * time.Millisecond)
 				j.ptok = 1<<62 | uint64(time.Duration(op.Val)*time.Millisecond)
@@ -1120,7 +1179,7 @@ func runHist(h Hist, idSeed uint64) (res HRes) {
 			ran := 0
 			c.mu.Lock()
 			for _, e := range c.exec {
-				if e.job == j.id && (j.kind != "echo" || e.ptok == j.ptok) {
+				if e.job == j.id && ((j.kind != "echo" && j.kind != "fail") || e.ptok == j.ptok) {
 					ran++
 				}
 			}
@@ -1142,7 +1201,18 @@ func runHist(h Hist, idSeed uint64) (res HRes) {
 				q, pk, nj, c2.VerifC05Frags(c.ss), cq, cpk, c2.VerifC05Frags(c.sess), why), "incomplete" + sh})
 			continue
 		}
-		if j.job.Status != statusDone || j.job.Result == nil || len(j.job.Error) > 0 {
+		if j.kind == "fail" {
+			// a failing task: completes once with StatusError and the error its client returned
+			want := fmt.Sprintf("boom:%d:%d", j.ptok, j.c)
+			if j.job.Status != statusError || j.job.Result == nil {
+				r.fails = append(r.fails, failRec{fmt.Sprintf("failing job %d of client %d finished with status %d (result nil: %v), want status error", j.id, j.c, j.job.Status, j.job.Result == nil), "status/fail" + sh})
+				continue
+			}
+			if j.job.Error != want {
+				r.fails = append(r.fails, failRec{fmt.Sprintf("failing job %d of client %d (shape %d: 0 fails at once, 1 string written first, 2 raw bytes first, 3 number+string first): Job.Error is %q, its client returned %q",
+					j.id, j.c, j.payload[0], clip(j.job.Error, 80), want), fmt.Sprintf("wrong-error/shape%d", j.payload[0]) + sh})
+			}
+		} else if j.job.Status != statusDone || j.job.Result == nil || len(j.job.Error) > 0 {
 			r.fails = append(r.fails, failRec{fmt.Sprintf("job %d of client %d finished with status %d error %q (result nil: %v)", j.id, j.c, j.job.Status, j.job.Error, j.job.Result == nil), "status" + sh})
 			continue
 		}
@@ -1164,6 +1234,24 @@ func runHist(h Hist, idSeed uint64) (res HRes) {
 				r.fails = append(r.fails, failRec{fmt.Sprintf("job %d of client %d (%d bytes): the result (%d bytes) is not the echo of its own payload by its own client (%s)",
 					j.id, j.c, j.size, len(got), describeResult(clients, r.jobs, got)), "wrong-result" + sh})
 			}
+		} else if j.kind == "fail" {
+			// judged above
+		} else if j.kind == "mv" {
+			j.job.Result.Seek(0, 0)
+			got := j.job.Result.Payload()
+			switch uint8(j.val) {
+			case task.MvPwd:
+				d, _ := os.Getwd()
+				var v string
+				j.job.Result.ReadString(&v)
+				if j.job.Result.Seek(0, 0); v != d {
+					r.fails = append(r.fails, failRec{fmt.Sprintf("MvPwd job %d of client %d: result %q, the client's directory is %q", j.id, j.c, clip(v, 60), d), "wrong-result/mv" + sh})
+				}
+			default:
+				if len(got) == 0 {
+					r.fails = append(r.fails, failRec{fmt.Sprintf("job %d of client %d (task id 0x%X): empty result", j.id, j.c, j.val), "wrong-result/mv" + sh})
+				}
+			}
 		} else {
 			jit, sl, ok := decodeTime(j.job.Result)
 			switch {
@@ -1180,7 +1268,7 @@ func runHist(h Hist, idSeed uint64) (res HRes) {
 	for ci, c := range clients {
 		want := map[[2]uint64]int{}
 		for _, j := range r.jobs {
-			if j.c == ci && j.kind == "echo" {
+			if j.c == ci && (j.kind == "echo" || j.kind == "fail") {
 				want[[2]uint64{uint64(j.id), j.ptok}]++
 			}
 		}
@@ -1197,7 +1285,7 @@ func runHist(h Hist, idSeed uint64) (res HRes) {
 			if want[k] == 0 {
 				who := "a task that was never scheduled on it"
 				for _, j := range r.jobs {
-					if j.kind == "echo" && j.id == e.job && j.ptok == e.ptok {
+					if (j.kind == "echo" || j.kind == "fail") && j.id == e.job && j.ptok == e.ptok {
 						if j.c == ci {
 							who = "its own job a second time"
 						} else {
@@ -1280,6 +1368,25 @@ func decodeTime(n *com.Packet) (uint8, int64, bool) {
 func resultTok(clients []*cliRec, j *jobRec) string {
 	if j.job == nil || j.job.Result == nil {
 		return "(-1)"
+	}
+	if j.kind == "fail" {
+		// from the error text the server received: "boom:<payload token>:<client>"
+		var (
+			t  uint64
+			ci int
+		)
+		if n, err := fmt.Sscanf(j.job.Error, "boom:%d:%d", &t, &ci); n != 2 || err != nil {
+			return "(-7)"
+		}
+		return fmt.Sprintf("(%d * 18446744073709551616 + %d)", ci, t)
+	}
+	if j.kind == "mv" {
+		for i, c := range clients {
+			if c.id == j.job.Result.Device {
+				return fmt.Sprintf("(%d * 18446744073709551616 + %d)", i, uint64(1<<62|1<<60)|uint64(j.job.Type))
+			}
+		}
+		return "(-3)"
 	}
 	if j.kind != "echo" {
 		jit, sl, ok := decodeTime(j.job.Result)
@@ -1376,6 +1483,16 @@ func genHist(r *vh.Rand, k int, class, prof string, nops int, big bool) Hist {
 		switch x := r.Intn(100); {
 		case x < 72:
 			op.Kind, op.Seed = "task", uint32(r.U64())
+			switch y := r.Intn(100); {
+			case y < 8:
+				op.Kind, op.Val, op.Size = "fail", r.Intn(4), []int{1, 100, 1024}[r.Intn(3)]
+				h.Ops = append(h.Ops, op)
+				continue
+			case y < 14 && prof == "none":
+				op.Kind, op.Val = "mv", int(mvIDs[1+r.Intn(len(mvIDs)-1)]) // (MvRefresh only in the corpus, see there)
+				h.Ops = append(h.Ops, op)
+				continue
+			}
 			switch {
 			case big && prof == "none" && many > 0 && r.Intn(12) == 0:
 				// more fragments than the five wake-ups a client keeps a silent group
@@ -1428,6 +1545,25 @@ func burst(class string, n int) Hist {
 	return h
 }
 
+// mvTasks: every task id the default client mux answers itself, each one alone (a pause of
+// several polls before it) and then all of them back to back (one Multi batch), on both clients.
+// No SetSleep / SetJitter here: after MvRefresh the client reports the machine id of this process
+// (all clients of the harness share it) and the server would address MvTime packets to it.
+func mvTasks(class string) Hist {
+	h := Hist{Class: class, NCl: 2, Profile: "none", SleepMs: []int{10, 10}, MaxJobs: 40, MaxSlots: 100}
+	for i, id := range mvIDs {
+		h.Ops = append(h.Ops, Op{Kind: "pause", Val: 50}, Op{Kind: "mv", C: i % 2, Val: int(id)})
+	}
+	h.Ops = append(h.Ops, Op{Kind: "pause", Val: 80})
+	for _, id := range mvIDs {
+		h.Ops = append(h.Ops, Op{Kind: "mv", C: 0, Val: int(id)})
+	}
+	for _, id := range mvIDs {
+		h.Ops = append(h.Ops, Op{Kind: "mv", C: 1, Val: int(id)})
+	}
+	return h
+}
+
 func corpus() []Hist {
 	F := limits.Frag
 	return []Hist{
@@ -1464,6 +1600,11 @@ func corpus() []Hist {
 			Ops: []Op{{Kind: "task", C: 0, Size: 100, Seed: 61}, {Kind: "cchan", C: 0, On: true}, {Kind: "pause", Val: 60}, {Kind: "task", C: 0, Size: 100, Seed: 62},
 				{Kind: "pause", Val: 200}, {Kind: "task", C: 0, Size: 1024, Seed: 63}, {Kind: "task", C: 1, Size: 100, Seed: 64}, {Kind: "pause", Val: 200},
 				{Kind: "cchan", C: 0, On: false}, {Kind: "pause", Val: 300}, {Kind: "task", C: 0, Size: 1, Seed: 65}}},
+		{Class: "corpus-task-kinds", NCl: 2, Profile: "none", SleepMs: []int{10, 10}, MaxJobs: 40, MaxSlots: 100,
+			Ops: []Op{{Kind: "task", C: 0, Size: 100, Seed: 71}, {Kind: "fail", C: 0, Val: 0, Size: 100, Seed: 72}, {Kind: "fail", C: 1, Val: 1, Size: 100, Seed: 73},
+				{Kind: "fail", C: 0, Val: 2, Size: 1024, Seed: 74}, {Kind: "fail", C: 1, Val: 3, Size: 1, Seed: 75}, {Kind: "task", C: 1, Size: 1, Seed: 76},
+				{Kind: "pause", Val: 60}, {Kind: "fail", C: 0, Val: 1, Size: 1, Seed: 77}, {Kind: "pause", Val: 60}, {Kind: "fail", C: 1, Val: 2, Size: 100, Seed: 78}}},
+		mvTasks("corpus-mv-tasks"),
 		burst("corpus-channel-burst", 400),
 		teardown("corpus-channel-teardown", 100, 44),
 		teardown("corpus-channel-teardown-frag", F+1, 14),
@@ -1563,6 +1704,7 @@ func childMain(file string, par int) {
 	}
 	task.Mappings[echoID] = echoTasker
 	task.Mappings[gatedID] = gatedTasker
+	task.Mappings[failID] = failTasker
 	var (
 		w     = bufio.NewWriter(os.Stdout)
 		wmu   sync.Mutex
